@@ -832,6 +832,21 @@ class NodeFor:
         return vals
 
     def evaluate(self, environment):
+        # the loop variables hide definitions of the same names in this
+        # scope only while the loop runs, however the loop is left
+        hidden = [
+            (name, environment.map.get(name)) for name in self.identifiers
+        ]
+        try:
+            return self.iterate(environment)
+        finally:
+            for name, value in hidden:
+                if value is None:
+                    environment.remove(name)
+                else:
+                    environment.put(name, value)
+
+    def iterate(self, environment):
         lst = self.expression.evaluate(environment)
         if lst.isInput():
             input_ = lst
